@@ -27,10 +27,10 @@ def _worker(docs):
 def run():
     ck = core.Check('C14', 'model_checking',
                     'paragraphs typed by spec/Prose.tla from a vocabulary of ~125 words and tricky-but-inert lexemes: exhaustive for one line of <= 2 lexemes and '
-                    'two lines of one lexeme (quick; thorough: one line of <= 3 lexemes, three lines of one), plus simulated paragraphs of up to 4 lines x 5 lexemes; '
+                    'two lines of one lexeme (quick; thorough: one line of <= 3 lexemes, three lines of one), two lines of <= 2 lexemes over the block-start-guarded lexemes and three words, plus simulated paragraphs of up to 4 lines x 5 lexemes; '
                     'distinct = distinct texts; non-trivial = contains a lexeme that is not a plain word')
     quick = ck.tier == 'quick'
-    cfgs = ['ProseQ1.cfg', 'ProseQ2.cfg'] if quick else ['ProseT1.cfg', 'ProseT2.cfg', 'ProseQ2.cfg']
+    cfgs = ['ProseQ1.cfg', 'ProseQ2.cfg', 'ProseQ3.cfg'] if quick else ['ProseT1.cfg', 'ProseT2.cfg', 'ProseQ2.cfg', 'ProseQ3.cfg']
     docs = []
     for c in cfgs:
         r = core.tlc('Prose', c, workers=1, timeout=3000, heap='6g')
